@@ -264,6 +264,36 @@ func (e *Env) eval(x SExpr) Term {
 			r.T = types.NewPointer(to.T)
 			return r
 		}
+		if x.Fun == "elemOwner" && len(x.Args) == 2 {
+			// elemOwner(TypeName, p): the object of struct type TypeName one of whose array fields
+			// contains the element that p points to
+			id, ok := x.Args[0].(SIdent)
+			if !ok {
+				e.fail("elemOwner(TypeName, pointer)")
+			}
+			to := fc.resolveType(e.pkgName, id.Name)
+			pv := e.eval(x.Args[1])
+			r := mk(fmt.Sprintf("(pf_base (pe_arr %s))", pv.S), SPtr, types.NewPointer(to.T))
+			return r
+		}
+		if x.Fun == "isElemOf" && len(x.Args) == 2 {
+			// isElemOf(TypeName, p): p points to an element of an array field of an object of that type
+			id, ok := x.Args[0].(SIdent)
+			if !ok {
+				e.fail("isElemOf(TypeName, pointer)")
+			}
+			pv := e.eval(x.Args[1])
+			var alts []string
+			for fid, fi := range fc.w.fidRev {
+				if fi.owner == id.Name || strings.HasSuffix(fi.owner, "_"+id.Name) {
+					alts = append(alts, fmt.Sprintf("(= (pf_fid (pe_arr %s)) %d)", pv.S, fid))
+				}
+			}
+			if len(alts) == 0 {
+				e.fail("isElemOf: unknown struct type %s", id.Name)
+			}
+			return mk(fmt.Sprintf("(and (is_PElem %s) (is_PField (pe_arr %s)) (or %s false))", pv.S, pv.S, strings.Join(alts, " ")), SBool, nil)
+		}
 		if x.Fun == "atHead" && len(x.Args) == 1 {
 			if e.head == nil {
 				e.fail("atHead() is only allowed in loop backedge clauses")
@@ -831,6 +861,13 @@ func (e *Env) call(c SCall) Term {
 			q := fmt.Sprintf("q!q%d", fc.n)
 			cond := []string{fmt.Sprintf("(< (rootid %s) %s)", q, e.old.nextID.S)}
 			for _, x := range except {
+				if mt, ok := typeOrNil(x.T).(*types.Map); ok {
+					// a map can only be changed through its own components
+					d, v, _, _ := fc.compMap(mt)
+					if name != d && name != v && name != "MN_"+strings.TrimPrefix(d, "MD_") {
+						continue
+					}
+				}
 				cond = append(cond, fmt.Sprintf("(not (= %s %s))", q, x.S),
 					fmt.Sprintf("(not (and (is_PField %s) (= (pf_base %s) %s)))", q, q, x.S),
 					fmt.Sprintf("(not (and (is_PField %s) (is_PField (pf_base %s)) (= (pf_base (pf_base %s)) %s)))", q, q, q, x.S))
@@ -863,8 +900,31 @@ func (e *Env) call(c SCall) Term {
 		a := args()[0]
 		return mk(fmt.Sprintf("(ite (>= %s 0.0) (to_int %s) (- (to_int (- %s))))", a.S, a.S, a.S), SInt, types.Typ[types.Int])
 	case "addr":
-		// addr(place) : the address itself (identity on places)
+		// addr(x.f): the address of field f (for aggregate fields x.f already denotes its address)
+		if len(c.Args) == 1 {
+			if sel, ok := c.Args[0].(SSel); ok {
+				base := e.eval(sel.X)
+				if pt, ok := typeOrNil(base.T).(*types.Pointer); ok {
+					if steps := findField(pt.Elem(), sel.Sel, 0); steps != nil {
+						addr := base
+						var ft types.Type
+						for _, s := range steps {
+							addr = fc.fieldAddr(addr, s.st, s.idx)
+							st, _ := isStruct(s.st)
+							ft = st.Field(s.idx).Type()
+						}
+						addr.T = types.NewPointer(ft)
+						return addr
+					}
+				}
+			}
+		}
 		return args()[0]
+	case "isBox":
+		// isBox(p): p points to a whole allocation (a variable or a new(T)), not into a field
+		// or an element of another object
+		a := args()[0]
+		return mk(fmt.Sprintf("(and (not (is_PElem %s)) (not (is_PField %s)) (not (is_PNull %s)))", a.S, a.S, a.S), SBool, nil)
 	case "typeid":
 		a := args()[0]
 		return mk(app("i_typ", a.S), SInt, nil)
